@@ -5,6 +5,7 @@ import Holpy.C16.SimplexHandle
 import Holpy.C16.SimplexRun
 import Holpy.C16.SimplexFuel
 import Holpy.C16.SimplexTermination
+import Holpy.C16.SimplexTrajectory
 import Holpy.C16.SimplexBBProofs
 /-
 C16 — property theorems about the model of `prover/simplex.py` (`Simplex`).  The model
@@ -261,5 +262,21 @@ example : NoRepeat exampleSat := by
   rw [hb] at this
   simp only [Option.map_some, Option.some.injEq, decide_eq_false_iff_not] at this
   exact this (by rw [← h1]; exact hc0)
+
+/-- Every state along a run of `check()` satisfies the tableau invariant and has the bounds and the
+row solutions of the state the run started from (an ingredient of the missing no-repeat argument). -/
+theorem traj_preserves_inv (k : Nat) (s a : SState) (hinv : Inv s) (h : traj s k = some a) :
+    Inv a ∧ a.lo = s.lo ∧ a.hi = s.hi ∧ ∀ w, RowsHold a.rows w ↔ RowsHold s.rows w :=
+  traj_preserves k s a hinv h
+
+/-- One repair step of `check()`: the leaving variable was basic and is put on the bound it violated,
+the entering variable was non-basic, and no other non-basic variable changes its value. -/
+theorem step_changes_only_entering (s s' : SState) (hinv : Inv s) (h : step s = .next s') :
+    ∃ xi xj v, isBasic s xi = true ∧ isBasic s xj = false ∧ s'.mapping xi = v ∧
+      (s.lo xi = some v ∨ s.hi xi = some v) ∧
+      ∀ y, y ≠ xi → y ≠ xj → isBasic s y = false → s'.mapping y = s.mapping y :=
+  step_values s s' hinv h
+
+example : (match step exampleSat with | .next _ => true | _ => false) = true := by decide +kernel
 
 end Holpy.C16
